@@ -112,6 +112,13 @@ CLAIMED = {
          "fault-injected tables; fault injection on the real system",
          "Proof: Props/C20.lean; pandas/numpy conversions are modelled from probes of the installed versions (table in "
          "Core/Typing.lean) and compared on every run; sn-consistency of spouses is C12's snId_error_iff."),
+ "C17": ("5/C17", "Lean 4 theorems over the shallow ℚ/Bool definitions of the ten decision rules (regenerated from /repo by the "
+         "translator every run): ALG II > 0 excludes Kinderzuschlag and Wohngeld, Grundsicherung excludes all three, Kinderzuschlag "
+         "only if need covered, needs unit within one part-household; definitions compared with the repo source on exact rationals; "
+         "rule-level exhaustive search over the Boolean cube and population search across the break-even points",
+         "Proof: Props/C17.lean for all real amounts and flag values; the aggregation to part-households is modelled by its C11/C12 "
+         "specification (any over members sharing the wthh flag); group-constancy of the inputs is C15's subject (three recorded "
+         "findings there concern wealth allowance / Wohngeld rent inputs, not the priority logic)."),
 }
 
 NOT_YET = "check not built yet in this round (design in DESIGN.md §5); the property itself is in scope of the technique"
